@@ -164,8 +164,11 @@ class ExplorerScriptMacro:
         for pos_mark in self.source_map.get_position_marks__direct():
             smb.add_macro_position_mark(self.included__relative_path, self.name, pos_mark)
         # Also add the sub-macro position marks to the map
-        for m in self.source_map.get_position_marks__macros():
-            smb.add_macro_position_mark(*m)
+        for rel_path, macro_name, pos_mark in self.source_map.get_position_marks__macros():
+            # As for the opcodes: if the path is None, the sub-macro is in OUR file.
+            if rel_path is None:
+                rel_path = self.included__relative_path
+            smb.add_macro_position_mark(rel_path, macro_name, pos_mark)
 
         out_ops.append(end_label)
 
